@@ -352,6 +352,7 @@ static int read_data_reaches_block(struct archive *a, size_t s)
 	int64_t off = a->read_data_offset, out = a->read_data_output_offset;
 	size_t rem = a->read_data_remaining;
 	if (s == 0) return 0;
+	if (a->state != ARCHIVE_STATE_DATA) return 1;	/* a stale block is forgotten first */
 	if (off == out && rem == 0) return 1;
 	if (off < out) return 0;
 	return ((uint64_t)s > (uint64_t)(off - out) + rem);
